@@ -109,13 +109,16 @@ def newer_versions():
     import signac
     from signac.errors import IncompatibleSchemaVersion
     out = []
-    for v in (3, 10):
+    for v in ("absent", 1, 3, 10):
         for layout in ("v2", "v1"):
+            if layout == "v1" and v in ("absent", 1):
+                continue        # the legacy layout at versions 0 / 1 is what the migration scenarios build
             with dir_scratch() as d:
                 root = os.path.join(d, "p")
                 if layout == "v2":
                     os.makedirs(os.path.join(root, ".signac"))
-                    open(os.path.join(root, ".signac", "config"), "w").write(f"schema_version = {v}\n")
+                    # a current-layout configuration that declares another version -- or none at all (absent means 0)
+                    open(os.path.join(root, ".signac", "config"), "w").write("" if v == "absent" else f"schema_version = {v}\n")
                 else:
                     os.makedirs(root)
                     open(os.path.join(root, "signac.rc"), "w").write(f"project = x\nschema_version = {v}\n")
@@ -161,5 +164,5 @@ def run(tier="quick", seed=0):
         evals += 1
     return {"scope": "legacy configurations: schema_version in {absent, 1} x project names (default 'None', plain, with spaces/punctuation) x workspace_dir in {absent, 'workspace', custom, nested} "
                      "x old cache/history files x 0/1/3/5 jobs with documents and files x colliding 'workspace' (exhaustive in the thorough tier, 40 sampled in quick); "
-                     "versions 3 and 10 in both layouts against Project / get_project / init_project",
+                     "versions absent (0), 1, 3, 10 declared in the current layout and 3, 10 in the legacy layout against Project / get_project / init_project",
             "evaluations": evals, "distinct_nontrivial": len(distinct), "rule": "a case is one legacy configuration migrated end to end; distinct by configuration tuple", "samples": samples, "failures": failures}
